@@ -13,6 +13,7 @@
 //   barrier <id> <sleep_us>
 //   close | stop
 //   pw <n>  peer writes n pattern bytes      pr <n>  peer reads up to n bytes     pc  peer closes    pshut  peer shutdown(WR)
+//   holdleave <us>                     hold the group leave that reaches zero for <us> after its atomic add (0 = off)
 //   closefd                            close the library's descriptor (later system calls fail with EBADF)
 //   sleep <us> | waitdrain | wait <op> | drain | end
 // output (per scenario, sorted by global sequence stamp):
@@ -73,10 +74,19 @@ typedef struct { int used; dispatch_queue_t q; _Atomic int in_handler; _Atomic i
 static opslot_t ops[MAXOPS];
 static dispatch_queue_t hq;
 static _Atomic int cleanup_runs;
+static volatile long hold_leave_us;
 
 static void note_cb(const volatile void *addr, unsigned size, int kind, int order, unsigned long long a,
 		unsigned long long b, int ok, const char *file, int line) {
 	(void)size; (void)order; (void)ok; (void)file; (void)line;
+	if (kind == DV_ADD && size == 8 && hold_leave_us > 0 && b == DISPATCH_GROUP_VALUE_INTERVAL &&
+			(a & DISPATCH_GROUP_VALUE_MASK) == DISPATCH_GROUP_VALUE_1) {
+		// schedule perturbation (command holdleave): the dispatch_group_leave that brings a group's count to zero is
+		// held right after its atomic add, i.e. before it detaches the notify list (semaphore.c:279-299)
+		logf_(next_seq(), "A heldleave 0");
+		usleep((useconds_t)hold_leave_us);
+		return;
+	}
 	if (kind != DV_NOTE_USER) return;
 	dispatch_operation_t op = (dispatch_operation_t)addr;
 	dispatch_queue_t tq = op->op_q ? op->op_q->do_targetq : NULL;
@@ -139,7 +149,7 @@ int main(int argc, char **argv) {
 			_dispatch_iocntl(1 /* DISPATCH_IOCNTL_CHUNK_PAGES */, (uint64_t)pages);
 			logn = 0; atomic_store(&seqctr, 0); atomic_store(&cleanup_runs, 0); memset(ops, 0, sizeof ops);
 			hq = dispatch_queue_create("c14.handlers", NULL); ch = NULL; closed = 0; fd_lib = fd_peer = -1; fd_kind = 0;
-			peer_wpos = 0; peer_rn = 0; tmppath[0] = 0;
+			peer_wpos = 0; peer_rn = 0; tmppath[0] = 0; hold_leave_us = 0;
 			printf("S %ld\n", scen);
 		} else if (!strcmp(cmd, "fd")) {
 			char kind[16]; long a = 0, b = 0; sscanf(rest, "%15s %ld %ld", kind, &a, &b);
@@ -221,6 +231,7 @@ int main(int argc, char **argv) {
 				if (fd_peer >= 0) peer_read(1 << 20, 1); else usleep(200);
 			}
 		} else if (!strcmp(cmd, "pc")) { if (fd_peer >= 0) { close(fd_peer); fd_peer = -1; } logf_(next_seq(), "A pc 0");
+		} else if (!strcmp(cmd, "holdleave")) { sscanf(rest, "%ld", &hold_leave_us);
 		} else if (!strcmp(cmd, "closefd")) { // the client closes the descriptor behind the channel's back (EBADF)
 			if (fd_lib >= 0) { close(fd_lib); fd_lib = -1; } logf_(next_seq(), "A closefd 0");
 		} else if (!strcmp(cmd, "pshut")) { if (fd_peer >= 0) shutdown(fd_peer, SHUT_WR); logf_(next_seq(), "A pshut 0");
